@@ -78,6 +78,29 @@ impl Default for tinfl_decompressor {
     }
 }
 
+/// Build a slice from a pointer/length pair coming from C. A NULL pointer is accepted for an
+/// empty buffer; NULL with a non-zero length gives `None`.
+unsafe fn slice_or_empty<'a>(ptr: *const u8, len: usize) -> Option<&'a [u8]> {
+    if !ptr.is_null() {
+        Some(slice::from_raw_parts(ptr, len))
+    } else if len == 0 {
+        Some(&[])
+    } else {
+        None
+    }
+}
+
+/// Mutable counterpart of [`slice_or_empty`].
+unsafe fn slice_or_empty_mut<'a>(ptr: *mut u8, len: usize) -> Option<&'a mut [u8]> {
+    if !ptr.is_null() {
+        Some(slice::from_raw_parts_mut(ptr, len))
+    } else if len == 0 {
+        Some(&mut [])
+    } else {
+        None
+    }
+}
+
 unmangle!(
     pub unsafe extern "C" fn tinfl_decompress(
         r: *mut tinfl_decompressor,
@@ -91,11 +114,18 @@ unmangle!(
         let next_pos = out_buf_next as usize - out_buf_start as usize;
         let out_size = *out_buf_size + next_pos;
         let r_ref = r.as_mut().expect("bad decompressor pointer");
+        let (in_slice, out_slice) = match (
+            slice_or_empty(in_buf, *in_buf_size),
+            slice_or_empty_mut(out_buf_start, out_size),
+        ) {
+            (Some(i), Some(o)) => (i, o),
+            _ => return TINFLStatus::BadParam as i32,
+        };
         if let Some(decompressor) = r_ref.inner.as_mut() {
             let (status, in_consumed, out_consumed) = decompress(
                 decompressor.as_mut(),
-                slice::from_raw_parts(in_buf, *in_buf_size),
-                slice::from_raw_parts_mut(out_buf_start, out_size),
+                in_slice,
+                out_slice,
                 next_pos,
                 flags,
             );
@@ -116,12 +146,19 @@ unmangle!(
         flags: c_int,
     ) -> size_t {
         let flags = flags as u32;
+        let (src, out) = match (
+            slice_or_empty(p_src_buf as *const u8, src_buf_len),
+            slice_or_empty_mut(p_out_buf as *mut u8, out_buf_len),
+        ) {
+            (Some(s), Some(o)) => (s, o),
+            _ => return TINFL_DECOMPRESS_MEM_TO_MEM_FAILED as size_t,
+        };
         let mut decomp = Box::<DecompressorOxide>::default();
 
         let (status, _, out_consumed) = decompress(
             &mut decomp,
-            slice::from_raw_parts(p_src_buf as *const u8, src_buf_len),
-            slice::from_raw_parts_mut(p_out_buf as *mut u8, out_buf_len),
+            src,
+            out,
             0,
             (flags & !inflate_flags::TINFL_FLAG_HAS_MORE_INPUT)
                 | inflate_flags::TINFL_FLAG_USING_NON_WRAPPING_OUTPUT_BUF,
@@ -148,6 +185,14 @@ unmangle!(
         let flags = flags as u32;
         const MIN_BUFFER_CAPACITY: size_t = 128;
 
+        let src = match slice_or_empty(p_src_buf as *const u8, src_buf_len) {
+            Some(s) => s,
+            None => {
+                *p_out_len = 0;
+                return ptr::null_mut();
+            }
+        };
+
         // We're not using a Vec for the buffer here to make sure the buffer is allocated and freed by
         // the same allocator.
 
@@ -164,10 +209,7 @@ unmangle!(
         loop {
             let (status, in_consumed, out_consumed) = decompress(
                 &mut decomp,
-                slice::from_raw_parts(
-                    p_src_buf.add(src_buf_ofs) as *const u8,
-                    src_buf_len - src_buf_ofs,
-                ),
+                &src[src_buf_ofs..],
                 slice::from_raw_parts_mut(p_buf as *mut u8, out_buf_capacity),
                 *p_out_len,
                 (flags & !inflate_flags::TINFL_FLAG_HAS_MORE_INPUT)
